@@ -60,6 +60,9 @@ pub fn codegen(ops: &Operations, rust_types: &RustTypes) {
     g!();
 
     g!("const XMLNS_S3: &str = \"http://s3.amazonaws.com/doc/2006-03-01/\";");
+    for (prefix, uri) in collect_xml_namespace_prefixes(rust_types, &field_type_names) {
+        g!("const {}: &str = \"{uri}\";", xmlns_const_name(prefix));
+    }
     g!();
 
     codegen_xml_serde(ops, rust_types, &root_type_names);
@@ -162,6 +165,26 @@ fn collect_xml_types<'a>(
     }
 
     (root_type_names, field_type_names)
+}
+
+/// Namespaces that are declared with a prefix: prefix -> uri
+fn collect_xml_namespace_prefixes<'a>(
+    rust_types: &'a RustTypes,
+    field_type_names: &BTreeSet<&str>,
+) -> BTreeMap<&'a str, &'a str> {
+    let mut ans: BTreeMap<&str, &str> = default();
+    for rust_type in field_type_names.iter().map(|&name| &rust_types[name]) {
+        let rust::Type::Struct(ty) = rust_type else { continue };
+        for (prefix, uri) in ty.fields.iter().filter_map(|field| field.xml_namespace_prefix.as_ref()) {
+            let prev = ans.insert(prefix, uri);
+            assert!(prev.is_none_or(|prev| prev == uri), "prefix {prefix} is bound to two namespaces");
+        }
+    }
+    ans
+}
+
+fn xmlns_const_name(prefix: &str) -> String {
+    format!("XMLNS_{}", prefix.to_ascii_uppercase())
 }
 
 const SPECIAL_TYPES: &[&str] = &["AssumeRoleOutput"];
@@ -314,6 +337,15 @@ fn codegen_xml_serde_content(ops: &Operations, rust_types: &RustTypes, field_typ
     }
 }
 
+/// An attribute holds a string
+fn is_xml_attribute_type(rust_types: &RustTypes, field: &rust::StructField) -> bool {
+    match &rust_types[field.type_.as_str()] {
+        rust::Type::Alias(ty) => ty.type_ == "String",
+        rust::Type::StrEnum(_) => true,
+        _ => false,
+    }
+}
+
 #[allow(clippy::too_many_lines)]
 fn codegen_xml_serde_content_struct(_ops: &Operations, rust_types: &RustTypes, ty: &rust::Struct) {
     if can_impl_serialize_content(&ty.name) {
@@ -323,7 +355,7 @@ fn codegen_xml_serde_content_struct(_ops: &Operations, rust_types: &RustTypes, t
             if ty.fields.is_empty() { '_' } else { 's' }
         );
 
-        for field in ty.fields.iter().filter(|x| x.position == "xml") {
+        for field in ty.fields.iter().filter(|x| x.position == "xml" && x.xml_attribute.not()) {
             let xml_name = field.xml_name.as_ref().unwrap_or(&field.camel_name);
 
             let field_ty = &rust_types[field.type_.as_str()];
@@ -374,6 +406,27 @@ fn codegen_xml_serde_content_struct(_ops: &Operations, rust_types: &RustTypes, t
         g!("Ok(())");
 
         g!("}}");
+
+        if ty.fields.iter().any(|x| x.position == "xml" && x.xml_attribute) {
+            g!();
+            g!("fn attributes(&self) -> Vec<(&str, &str)> {{");
+            g!("vec![");
+            let mut declared: BTreeSet<&str> = default();
+            for field in ty.fields.iter().filter(|x| x.position == "xml" && x.xml_attribute) {
+                let xml_name = field.xml_name.as_ref().unwrap_or(&field.camel_name);
+                assert!(is_xml_attribute_type(rust_types, field) && field.option_type.not());
+
+                // The prefix of the name is declared in the start tag that holds the attribute.
+                let prefix = xml_name.split_once(':').map(|(prefix, _)| prefix);
+                if let Some(prefix) = prefix.filter(|&prefix| declared.insert(prefix)) {
+                    g!("(\"xmlns:{prefix}\", {}),", xmlns_const_name(prefix));
+                }
+                g!("(\"{}\", self.{}.as_str()),", xml_name, field.name);
+            }
+            g!("]");
+            g!("}}");
+        }
+
         g!("}}");
         g!();
     }
@@ -388,13 +441,23 @@ fn codegen_xml_serde_content_struct(_ops: &Operations, rust_types: &RustTypes, t
             if field.position == "sealed" {
                 continue;
             }
+            if field.xml_attribute {
+                let xml_name = field.xml_name.as_ref().unwrap_or(&field.camel_name);
+                assert!(is_xml_attribute_type(rust_types, field));
+                g!(
+                    "let {}: Option<{1}> = d.attribute(\"{xml_name}\")?.map({1}::from);",
+                    field.name,
+                    field.type_
+                );
+                continue;
+            }
             g!("let mut {}: Option<{}> = None;", field.name, field.type_);
         }
 
         if ty.fields.is_empty().not() {
             g!("d.for_each_element(|d, x| match x {{");
             for field in &ty.fields {
-                if field.position == "sealed" {
+                if field.position == "sealed" || field.xml_attribute {
                     continue;
                 }
 
